@@ -292,6 +292,23 @@ pub fn layout_with_region(region_tag: u32, items: &[(u32, Val)]) -> (Vec<RawEntr
     (entries, store)
 }
 
+/// A region that covers only the first `items.len() - after` items; the remaining items are index
+/// entries behind the region whose data follows the region trailer (what rpm leaves behind when a tag
+/// is added to a header that was loaded from a package: "dribbles").
+pub fn layout_with_region_and_dribbles(region_tag: u32, items: &[(u32, Val)], after: usize) -> (Vec<RawEntry>, Vec<u8>) {
+    let cut = items.len().saturating_sub(after);
+    let (mut entries, mut store) = layout_with_region(region_tag, &items[..cut]);
+    for (tag, v) in &items[cut..] {
+        let a = v.align();
+        while store.len() % a != 0 {
+            store.push(0);
+        }
+        entries.push(RawEntry { tag: *tag, typ: v.typ(), offset: store.len() as i32, count: v.count() });
+        v.encode(&mut store);
+    }
+    (entries, store)
+}
+
 pub fn enc_header_raw(reserved: [u8; 4], il: u32, dl: u32, entries: &[RawEntry], store: &[u8]) -> Vec<u8> {
     let mut out = Vec::with_capacity(16 + entries.len() * 16 + store.len());
     out.extend_from_slice(&HDR_MAGIC);
